@@ -26,6 +26,7 @@ def validate():
     # ---- S2: regex -> DFA, on the pattern literals of the current source
     txt = open(os.path.join(src, 'src/hand_range/hand_range_token.rs')).read()
     pats = re.findall(r'Regex::new\(\s*r"([^"]*)"', txt)
+    pats += [p_[:-1] for p_ in pats[:2]] + [p_[1:] for p_ in pats[2:4]]      # the same shapes without the end / start anchor (search semantics)
     alpha = ['A', 'K', '2', 's', 'o', 'h', '+', '-', ':', '0', '1', '9', '.', 'x', 'é']
     words = [''.join(t) for L in range(0, 5) for t in itertools.product(alpha, repeat=L)]
     rnd = random.Random(1)
@@ -35,13 +36,9 @@ def validate():
         got = batch(bins, 'regex_batch', [w.encode().hex() for w in words], [ptn.encode().hex()])
         for w, g in zip(words, got):
             q = 0
-            dead = False
             for by in w.encode():
-                if by >= 128:
-                    dead = True
-                    break
-                q = t[q][by]
-            mine = (not dead) and a[q]
+                q = t[q][min(by, 128)]
+            mine = a[q]
             if mine != (g == '1'):
                 bad += 1
                 if bad < 5:
